@@ -142,6 +142,29 @@ theorem pending_tags_lost_on_retry :
       (recordJobEnd 1 none false (recordTags true [⟨50, 1, 1, 60, 61, true⟩] s0)) 0)).db.tags.length = 1 := by
   decide
 
+/-! ### only the outermost `db_retry` call retries -/
+
+/-- **However many decorated calls an operation makes, none of them retries on its own** (fixed wrapper): inside an
+outermost call the flag is set and every nested call leaves it set. -/
+theorem only_outermost_retries (n : Nat) : nestedRetriers retryWrapper n true = List.replicate n false := by
+  induction n with
+  | zero => rfl
+  | succ k ih => simp [nestedRetriers, retryWrapper, ih, List.replicate_succ]
+
+/-- ... and the outermost call itself does, and leaves the flag cleared for the next operation -/
+theorem outermost_retries : retryWrapper false = (true, false) := rfl
+
+/-- the seeded merged try/finally: the first nested call clears the flag, every later nested call acts as an
+outermost retrier (its rollback then drops the caller's pending rows: `known_nested_retry_drops_pending`) -/
+theorem merged_wrapper_later_nested_calls_retry (n : Nat) :
+    nestedRetriers retryWrapperMerged (n + 2) true = false :: List.replicate (n + 1) true := by
+  have h : ∀ k, nestedRetriers retryWrapperMerged k false = List.replicate k true := by
+    intro k
+    induction k with
+    | zero => rfl
+    | succ k ih => simp [nestedRetriers, retryWrapperMerged, ih, List.replicate_succ]
+  simp [nestedRetriers, retryWrapperMerged, h, List.replicate_succ]
+
 /-! ### closed witnesses on the CURRENT code -/
 
 def okDb : Except Err Sess → Option Db
